@@ -44,15 +44,25 @@ DED = {
          "updateAnalyticalFeature (scalar and list), removeAnalyticalFeature (column deleted everywhere, higher indices shifted, every "
          "other name reads as before - dict iteration modelled with tombstones), utils.addListToAF: each preserves twf, writes exactly "
          "the designated column / cell, leaves every other column, every other observation, every other track, coordinates and "
-         "timestamps unchanged (frames proved, not assumed); the history clause follows by induction over these contracts.",
-         "Track.operate / __applyOperation / the expression evaluator, __setitem__/__getitem__ and operator objects are bounded only "
-         "(Integrator and addAnalyticalFeature are proved under C17)."),
+         "timestamps unchanged (frames proved, not assumed); the history clause follows by induction over these contracts. Bracket "
+         "reads track[name, i] / track[i] and bracket assignment (track[name, i] = v, track[i, name] = v, track[name] = list or scalar, "
+         "track[name] = '#DELETE') are verified as the same operations through Track.__getitem__ / __setitem__; Track.operate with an "
+         "algebraic expression: whatever the (abstract, trusted-well-formed) evaluator does, no evaluator temporary ('#...') remains listed.",
+         "the expression evaluator itself (__evaluate / __applyOperation: bounded only; operator objects are proved under C02, Integrator and "
+         "addAnalyticalFeature under C17), track[name] = function."),
  "C04": ("Track.extract, __gt__ / __lt__ with an integer (head / tail trimming), __mod__ with a step, __add__ (concatenation; feature "
          "table carried iff both name lists are equal), __removeObsListById (strictly increasing index list: exactly the other "
          "observations in order, block-shift invariant + gap lemma by induction): the result holds exactly the designated observation "
-         "objects in the original order, the feature table is carried over, the source track is unchanged (frame obligations).",
-         "sort (numpy.argsort), __getInsertionIndex / insertObs, extractSpanTime (deepcopy), % with a pattern, removeObsList's sort and "
-         "duplicate scan are bounded only; `track < n` requires n <= size (a larger n wraps around in Python: recorded behaviour)."),
+         "objects in the original order, the feature table is carried over, the source track is unchanged (frame obligations). "
+         "Track.sort (numpy.argsort as a trusted permutation model): the same observation objects, each exactly once, in non-decreasing "
+         "time; nothing but the track's list is written. __getInsertionIndex on a time-sorted track (dichotomy loop invariant over powers "
+         "of two, two linear fix-up loops with variants): a rank r with every earlier fix not later and every fix from r on not earlier "
+         "than the instant; insertObs(obs, i), insertObsInChronoOrder and insertObs(obs): one more observation, the others in their "
+         "order, the track still sorted.",
+         "extractSpanTime (deepcopy), % with a pattern, removeObsList's sort and duplicate scan are bounded only; `track < n` requires "
+         "n <= size (a larger n wraps around in Python: recorded behaviour). ASSUMED in __getInsertionIndex (float logarithms, checked by "
+         "the bounded part on the expression read from the source): the first dichotomy step is a power of two in [1, N/2], N < 2**47; "
+         "termination of the dichotomy loop is not proved."),
  "C09": ("HMM.estimate's Viterbi core as two REGION contracts cut from the real function on every run: forward step - for every epoch "
          "k >= 1 and candidate l, TAB_VAL[k][l] = c_obs + TAB_VAL[k-1][m*] + c_tr with m* = TAB_MRK[k][l] a valid candidate of epoch "
          "k-1 (TIGHT) and <= the same expression for every m (LOWER); backward step - one candidate index per epoch, chained through "
@@ -123,8 +133,18 @@ DED.update({
          "kernel preparation in Filter.execute (list normalisation, Kernel objects), Kernel.evaluate (numpy.vectorize: trusted), "
          "filter_seq wiring, Filter_FFT: bounded only or outside the statement."),
  "C16": ("distance_to_segment: never fails (degenerate chord included); the result is the distance from the point to a point of the segment "
-         "(the per-coordinate clamp equals clamping the parameter), 0 at both ends of the chord.",
-         "douglas_peucker (recursion, subsequence, tolerance) and visvalingam: bounded only."),
+         "(the per-coordinate clamp equals clamping the parameter), 0 at both ends of the chord; it is a pure function of its six "
+         "arguments (syntactic purity obligation), denoted dseg below. douglas_peucker (recursive contract with variant = number of fixes): "
+         "a new track that keeps the first and the last fix, holds only input fixes, in the original order (strictly increasing index "
+         "function), and EVERY input fix is within eps (dseg <= eps) of some segment of the result (ghost index, induction over the two "
+         "recursive calls); the source is unchanged; it terminates. visvalingam (loop invariant over the copy made by Track.copy, "
+         "trusted deepcopy): never fails, keeps the copies of the first and last fix, the kept fixes are fixes of the copy in the copy's "
+         "order, each with the position and timestamp of its input fix, at least two fixes remain, the feature table stays well-formed, "
+         "the input track is not touched; it terminates. Under it: triangle_area, aire_visval (IndexError exactly at the last fix), "
+         "Operator.ARGMIN / Track.operate(ARGMIN) (index of a smallest value below 1e300, NaN never selected), "
+         "addAnalyticalFeature(aire_visval) with the real try / except IndexError control flow, removeObs.",
+         "simplify()'s dispatch and the other simplification modes are outside the statement. ASSUMED for visvalingam: no triangle of three "
+         "input fixes has an area of 1e300 or more (ARGMIN ignores such values); Track.copy is a trusted deepcopy contract."),
 })
 
 DED["C07"] = ("Network.run_routing_backward under C06's certificate (predecessor tree, the source is the root): None exactly when the target has "
@@ -134,15 +154,18 @@ DED["C07"] = ("Network.run_routing_backward under C06's certificate (predecessor
               "forward loop.",
               "every GEOMETRY clause (edge polylines chained end to end, oriented along the travel, junction vertices not repeated, starting at the "
               "source's position) is bounded only: Track.copy / reverse / > / + are opaque in this contract; termination of the walk is not proved.")
-DED["C02"] = ("25 operator classes against their documented pointwise definitions written independently of the code (Adder, Substracter, "
+DED["C02"] = ("38 operator classes against their documented pointwise definitions written independently of the code (Adder, Substracter, "
               "Multiplier, Divider with x/0 = NaN, Above, Below, PointwiseEqualer; ScalarAdder, ScalarSubstracter, ScalarRevSubstracter, "
               "ScalarMuliplier, Scalar(Rev)Below / Above; Differentiator, Forward / Backward / Centered / SecondOrder finite differences with "
-              "NaN at the ends; Inverter, Square, Diode, Rectifier, Sign through the generic APPLY loop and their own lambda): for every track "
+              "NaN at the ends; Inverter, Square, Diode, Rectifier, Sign, Identity, Inverser, Thresholder through the generic APPLY loop and their "
+              "own lambda; Shift (y(t) = x(t-k), NaN outside), ShiftRight, ShiftLeft, ShiftRev; ScalarDivider, ScalarRevDivider): for every track "
               "size and every value incl. NaN and zeros the returned list holds the documented value at every index, is stored under the "
-              "output name (created if absent), and every other column, coordinate and observation is unchanged.",
+              "output name (created if absent), and every other column, coordinate and observation is unchanged. Read-only aggregates Sum, "
+              "Averager (folds over the values that are numbers), Min, Max (38 operator classes in all).",
               "the expression parser (makeRPN, string rewriting, precedence / associativity / parentheses), __evaluateRPN / __applyOperation "
-              "dispatch, '=' handling, aggregate operators, shifts and the remaining operator classes: bounded only (unbounded string "
-              "recursion is outside any contract within reach).")
+              "dispatch, '=' handling, circular shifts, powers, modulo, transcendental functions and the remaining aggregates: bounded only "
+              "(unbounded string recursion is outside any contract within reach). 1/x operators require non-zero inputs (ZeroDivisionError "
+              "otherwise, unlike the binary '/').")
 DED["C10"] = ("mapping.__distToNode: the distances from the matched point to the edge's source and target nodes are abs_curv[i] + |g[i] - p| and "
               "abs_curv[last] - abs_curv[i+1] + |g[i+1] - p| (the edge geometry's curvilinear abscissa, proved cumulative by C17's computeAbsCurv "
               "contract); lemma on-segment-split: for a point on segment i the two add up to abs_curv[last], the edge's planimetric length. "
